@@ -354,6 +354,21 @@ pub fn run(ctx: &Ctx) -> Result<Run, String> {
         odd.push(vec!["a"; l].join("."));
         odd.push(format!("{}.ck", vec!["k"; l].join(".")));
     }
+    // names whose labels are numbers (dotted quads and relatives): they are names like any other
+    let nums = ["0", "1", "10", "127", "255", "256", "01", "999"];
+    for a in nums {
+        for b in nums {
+            odd.push(format!("{a}.{b}"));
+            for c in ["0", "1", "168", "255", "256"] {
+                for d in ["0", "1", "255", "256"] {
+                    odd.push(format!("{a}.{b}.{c}.{d}"));
+                }
+            }
+        }
+    }
+    for s in ["::1", "::ffff:10.0.0.1", "[::1]", "1.2.3.4.5", "1.2.3", "0x7f.0.0.1", "1.1.1.1.com", "com.1.1.1.1", "192.168.0.1.co.uk"] {
+        odd.push(s.to_string());
+    }
     // labels of 256 + k bytes whose first k bytes are a label of the table (lengths that do not fit a
     // byte), at every level of a sample of rules and of fixed names
     for filler in [256usize, 257, 512, 65536] {
